@@ -247,6 +247,9 @@ class System:
             key = key.strip()
             value = value.strip()
 
+            if section == '' or key == '':
+                raise ValueError('config_option left-hand side "{}" must use format SECTION.FIELD'.format(field))
+
             # add the section only when it is missing: the rc file may lack it,
             # and several options may name the same section
             if section != configparser.DEFAULTSECT and not self._config_object.has_section(section):
